@@ -122,6 +122,10 @@ def run(fx, chk, tier):
                 if m.get("k") == "if" and m["cond"].get("k") == "bin" and m["cond"]["op"] == "Eq" and hirq.path_str(m["cond"]["l"]) == nm:
                     disp = ("if", m)
                     break
+                # `if let BoxType::X = name { .. } else { .. }` is a two-arm match on the type
+                if m.get("k") == "if" and m["cond"].get("k") == "letx" and hirq.path_str(m["cond"]["init"]) == nm and m["cond"]["pat"].get("k") in ("path", "tuplestruct", "struct"):
+                    disp = ("match", {"arms": [{"pat": m["cond"]["pat"], "body": m["then"]}, {"pat": {"k": "wild"}, "body": m.get("else") or {"k": "block", "stmts": []}}]})
+                    break
             if disp is None:
                 chk.bad("R1", key + "|dispatch", "box-walk loop without a recognisable dispatch on the child type", site)
                 continue
